@@ -27,7 +27,7 @@ THEOREMS_AXIS = ["C08_axis_symmetric_footprint", "C08_axis_symmetric_footprint_d
                  "C08_axis_symmetric_footprint_full", "C08_centroid_on_wind_axis_partial", "C08_centroid_on_wind_axis_noNyq_partial",
                  "C08_axis_symmetric_footprint_x", "C08_axis_symmetric_footprint_x_defect", "C08_axis_symmetric_footprint_x_odd",
                  "C08_axis_symmetric_footprint_x_full", "C08_centroid_on_wind_axis_x_partial", "C08_centroid_on_wind_axis_x_noNyq_partial",
-                 "C08_axis_nonvacuous"]
+                 "C08_axis_nonvacuous", "C08_axis_example_applied"]
 # ... and their connection to compute_wind_fields / the profiles, over R and the complex instance ROps (stdlib real axioms)
 THEOREMS_AXIS_R = ["C08_cardinal_no_crosswind", "C08_cardinal_request", "C08_centroid_cardinal_east_west_partial",
                    "C08_centroid_cardinal_north_south_partial", "C08_cardinal_nonvacuous"]
@@ -43,7 +43,7 @@ ASSUMPTIONS = [
     "theorems are in exact real arithmetic; orientation of the (x east, y north) frame is C17_orientation; the solver's own orientation is the subject of C02/C06/C07",
     "'a few degrees' = 5 deg; 'resolved domain' = tower at the domain centre (via lat/lon and the reference), 2*max(dx,dy) <= footprint peak distance <= min(xmax,ymax)/20 (measured first, domain sized in units of it), modes = all modes of the padded grid, halo = 2*max(xmax,ymax) for every closure (measured worst error 0.75 deg) and additionally the solver's default halo for MOST/MOSTM (measured worst 2.7 deg); the CONSTANT closure with the default halo is NOT counted as resolved: its x^(-3/2) tail re-enters through the periodic images and moves the centroid by up to 5.7 deg on oblong domains, and a truncated spectrum (modes = grid size) low-pass filters anisotropically (up to 9 deg) - both are domain/resolution effects, not direction-convention effects",
     "correspondence tolerance 1e-12*max(1,|U|): deg2rad and sin/cos round to <= 2 ulp at |wind_dir| <= 720 deg",
-    "axis theorems: exact arithmetic under Laws O (field laws standing for IEEE doubles); footprint mode; v = 0 (u = 0) at every node - in binary64 compute_wind_fields(U, 90) has v = -U*6.1e-17, not 0; tower on a grid line for the centroid statements; returned array exact for an odd retained count or the full spectrum, otherwise without the unpaired retained frequency; every halo. Axis observable: tolerance 1e-9 of max|F| / of r*sum|F| (double; measured <= 2e-11 on the unchanged tree) and 1e-4 (single storage), in the bounded-growth regime (shooting growth exponent <= 3.5: cells enlarged until it holds), because the shooting method amplifies the 1e-16 cross-wind component by exp(2*growth)",
+    "axis theorems: exact arithmetic under Laws O (field laws standing for IEEE doubles); footprint mode; v = 0 (u = 0) at every node - in binary64 compute_wind_fields(U, 90) has v = -U*6.1e-17, not 0; tower on a grid line for the centroid statements; returned array exact for an odd retained count or the full spectrum, otherwise without the unpaired retained frequency; every halo. Axis observable: tolerance 1e-9 of max|F| / of r*sum|F| (double; measured <= 3e-11 on the unchanged tree) and 1e-4 (single storage); direct solver requests in the bounded-growth regime (shooting growth exponent <= 3.5: cells enlarged until it holds), because on under-resolved grids (cells smaller than the measurement height) the shooting method amplifies the 1e-16 cross-wind component up to 1e-7; through run_bldfm_single on the resolved end-to-end configurations (measured <= 2.1e-11 on all 102 configurations of the thorough sweep, dominated by the tower being 1.5e-12 cells off its grid line after the lat/lon round trip)",
 ]
 
 UTILS = lambda: os.path.join(core.SRC, "bldfm", "utils.py")
@@ -318,28 +318,16 @@ def e2e_config(geo, P, wd, xmax, ymax):
 def e2e_run(cp, itf, geo, P, wd, xmax, ymax):
     cfg = cp.parse_config_dict(e2e_config(geo, P, wd, xmax, ymax))
     t = cfg.towers[0]
-    cardinal = float(wd) % 90.0 == 0.0
-    rec = Recorder(itf, stub_solver=False) if cardinal else None
-    if rec is not None:
-        rec.__enter__()
-    try:
-        if P.get("cached"):
-            # through a result cache: the first call solves and stores, the second is served from the store — the
-            # footprint examined is the one a repeated run hands to the user
-            import tempfile
-            from bldfm.cache import GreensFunctionCache
-            cache = GreensFunctionCache(tempfile.mkdtemp(prefix="c08cache_", dir=os.getcwd()))
-            itf.run_bldfm_single(cfg, t, cache=cache)
-            r = itf.run_bldfm_single(cfg, t, cache=cache)
-        else:
-            r = itf.run_bldfm_single(cfg, t)
-    finally:
-        if rec is not None:
-            rec.__exit__(None, None, None)
-    growth = None
-    if rec is not None and rec.calls["prof"]:
-        zz, pp = rec.calls["prof"][-1][2]
-        growth = c08axis.growth(zz, pp, xmax / P["nx"], ymax / P["ny"])
+    if P.get("cached"):
+        # through a result cache: the first call solves and stores, the second is served from the store — the
+        # footprint examined is the one a repeated run hands to the user
+        import tempfile
+        from bldfm.cache import GreensFunctionCache
+        cache = GreensFunctionCache(tempfile.mkdtemp(prefix="c08cache_", dir=os.getcwd()))
+        itf.run_bldfm_single(cfg, t, cache=cache)
+        r = itf.run_bldfm_single(cfg, t, cache=cache)
+    else:
+        r = itf.run_bldfm_single(cfg, t)
     X, Y = np.squeeze(np.asarray(r["grid"][0], float)), np.squeeze(np.asarray(r["grid"][1], float))
     f = np.squeeze(np.asarray(r["flx"], float))
     if f.shape != X.shape or not np.all(np.isfinite(f)):
@@ -350,12 +338,14 @@ def e2e_run(cp, itf, geo, P, wd, xmax, ymax):
     cx, cy = (f * X).sum() / m - t.x, (f * Y).sum() / m - t.y
     pk = np.unravel_index(np.argmax(f), f.shape)
     brg = math.degrees(math.atan2(cx, cy)) % 360.0
-    return {"axis": axis_moment(f, wd, t.x, t.y, xmax, ymax), "growth": growth, "bearing": brg, "err": (brg - wd + 180.0) % 360.0 - 180.0, "peak": math.hypot(X[pk] - t.x, Y[pk] - t.y),
+    return {"axis": axis_moment(f, wd, t.x, t.y, xmax, ymax), "bearing": brg, "err": (brg - wd + 180.0) % 360.0 - 180.0, "peak": math.hypot(X[pk] - t.x, Y[pk] - t.y),
             "cdist": math.hypot(cx, cy), "tower_xy": (t.x, t.y), "centre_off": math.hypot(t.x - xmax / 2, t.y - ymax / 2)}
 
 
 def axis_moment(f, wd, tx, ty, xmax, ymax):
-    """cardinal wind directions with the tower on a grid line (to 1e-9 cells): first moment of the footprint ACROSS the
+    """cardinal wind directions with the tower on a grid line (to 2e-11 cells; through lat/lon the tower of the
+    end-to-end configurations is 1.5e-12 cells off its line, which is what the measured moments of 1e-14 .. 2e-11 on
+    the 102 resolved configurations of the thorough sweep consist of): first moment of the footprint ACROSS the
     wind about the tower over the largest window of whole rows/columns centred on the tower, relative to r*sum|F|
     (C08_centroid_on_wind_axis_partial: exactly 0 when all modes of the padded grid are retained).  None otherwise."""
     if float(wd) % 90.0 != 0.0:
@@ -366,7 +356,7 @@ def axis_moment(f, wd, tx, ty, xmax, ymax):
     pos = (ty / (ymax / n)) if rows else (tx / (xmax / n))
     jm = int(round(pos))
     r = min(jm, n - 1 - jm)
-    if abs(pos - jm) > 1e-9 or r < 1:
+    if abs(pos - jm) > 2e-11 or r < 1:
         return None
     d = np.arange(-r, r + 1)
     W = A[jm - r: jm + r + 1, :]
@@ -430,7 +420,7 @@ def sweep_one(cp, itf, geo, P, dirs):
             return "skipped", []
         recs.append((float(wd), r["bearing"], r["err"], xmax, ymax, peak))
         if r.get("axis") is not None:
-            P.setdefault("_axis", []).append((float(wd), r["axis"], r.get("growth")))
+            P.setdefault("_axis", []).append((float(wd), r["axis"]))
     return "resolved", recs
 
 
@@ -461,10 +451,7 @@ def smoke(ctx, cp, itf, geo):
         n += len(recs)
         w = max(abs(r[2]) for r in recs)
         worst = w if worst is None else max(worst, w)
-        for wd, mom, growth in axis_recs:
-            if growth is None or growth > c08axis.GROWTH_BOUND:
-                ctx.cov["axis_e2e"]["outside_bounded_growth"] = ctx.cov["axis_e2e"].get("outside_bounded_growth", 0) + 1
-                continue
+        for wd, mom in axis_recs:
             ctx.cov["axis_e2e"]["runs"] += 1
             ctx.cov["axis_e2e"]["worst"] = max(ctx.cov["axis_e2e"]["worst"], mom)
             if not mom <= c08axis.TOL["double"]:
@@ -736,10 +723,7 @@ def oracle(ctx, hints):
             stats["skipped_unresolved"] += 1
             continue
         stats["runs"] += len(recs)
-        for wd_, mom, growth in P.pop("_axis", []):
-            if growth is None or growth > c08axis.GROWTH_BOUND:
-                stats["axis_outside_bounded_growth"] = stats.get("axis_outside_bounded_growth", 0) + 1
-                continue
+        for wd_, mom in P.pop("_axis", []):
             stats["axis_runs"] = stats.get("axis_runs", 0) + 1
             stats["axis_worst"] = max(stats.get("axis_worst", 0.0), mom)
             if not mom <= c08axis.TOL["double"]:
@@ -802,8 +786,8 @@ def replay(body):
         print("wind_dir %.2f deg: bearing tower -> footprint centroid %.3f deg (difference %.3f deg, peak distance %.1f m)" % (body["wd"], r["bearing"], r["err"], r["peak"]))
         if abs(r["err"]) > BEARING_TOL:
             res = [(classify([(body["wd"], r["bearing"])]), "bearing differs by %.2f deg" % r["err"])]
-        if r.get("axis") is not None and r.get("growth") is not None and r["growth"] <= c08axis.GROWTH_BOUND:
-            print("first moment across the wind about the tower: %.3g of r*sum|F| (growth exponent %.2f)" % (r["axis"], r["growth"]))
+        if r.get("axis") is not None:
+            print("first moment across the wind about the tower: %.3g of r*sum|F|" % r["axis"])
             if not r["axis"] <= c08axis.TOL["double"]:
                 res.append(("axis:centroid-off-the-wind-axis", "first moment across the wind %.3g" % r["axis"]))
     for sig, what in res:
